@@ -45,6 +45,10 @@ def family(tier, seed):
             m = X.seq_model(h, SEQ, sd, cap=6, with_key=False)
             if m is not None:
                 docs.append((f'{"+".join(h)}#{sd}', m))
+        # an invisible barline in the first / last column only (the same barline visible in the other columns)
+        m = X.seq_model(h, ['k', 'i', 'b', 'd', 'h', 'd', 'S0', 'd', 'H', 'd', 'J0', 'h', 'd', 'H', 'b'], seed + 2, cap=6, with_key=False)
+        if m is not None:
+            docs.append((f'{"+".join(h)}/hidden-barlines#{seed + 2}', m))
         # the same with the first / second spine terminated early while the others go on
         for xi, sd in ((0, seed), (1, seed + 1)):
             m = X.seq_model(h, ['k', 'i', 'b', 'd', 'd', f'X{xi}', 'd', 'S0', 'd', 'J0', 'b', 'd', 'b'], sd, cap=6, with_key=False)
@@ -271,7 +275,8 @@ def run(ctx):
                        'comparison leniencies of DESIGN §2.1']
     nparts = 8
     ctx.pmap(_job, [(di, ctx.tier, ctx.seed, p, nparts) for di in range(len(fam)) for p in range(nparts)], chunksize=1)
-    ctx.pmap(_range_job, [(di, ctx.tier, ctx.seed) for di in range(len(fam))], chunksize=1)
+    # (measure ranges are not driven on the documents with invisible barlines: what a measure is when a barline is hidden in one column only is not settled by any property)
+    ctx.pmap(_range_job, [(di, ctx.tier, ctx.seed) for di in range(len(fam)) if 'hidden-barlines' not in fam[di][0]], chunksize=1)
 
 
 def replay(case):
